@@ -2,6 +2,7 @@ package gen
 
 import (
 	"fmt"
+	"strings"
 
 	"pgregory.net/rapid"
 	"verif.local/h/gr"
@@ -697,5 +698,36 @@ func AddActions(t *rapid.T, g *gr.Grammar, o SynOpts) {
 	}
 	if useT {
 		g.Header = fmt.Sprintf("import (\n\th %q\n\t\"TOKENPKG\"\n)\n\nvar _ = h.N", actPkg)
+	}
+}
+
+// ForceRecording gives every alternative that has no recording action one
+// (tag q<i>, all body attributes in order). A parser generated with -a from an
+// ambiguous grammar may legitimately reduce for ever without reading a token
+// (B : empty in front of a recursion); with a recording call in every
+// reduction such a run ends in the harness's call budget instead of hanging.
+func ForceRecording(g *gr.Grammar) {
+	pn := 0
+	for i := range g.Prods {
+		for j := range g.Prods[i].Alts {
+			pn++
+			a := &g.Prods[i].Alts[j]
+			if a.Spec != nil && a.Spec.Style == "rec" {
+				continue
+			}
+			sp := &gr.ActSpec{Style: "rec", Tag: fmt.Sprintf("q%d", pn)}
+			for k := 0; k < a.NumBody(); k++ {
+				sp.Args = append(sp.Args, gr.ActArg{Idx: k})
+			}
+			a.Spec = sp
+			a.Action = sp.Render()
+		}
+	}
+	if !strings.Contains(g.Header, "h.N") {
+		h := "import h \"verif.local/h/act\"\n\nvar _ = h.N"
+		if g.Header != "" {
+			h += "\n\n" + g.Header
+		}
+		g.Header = h
 	}
 }
